@@ -1,7 +1,10 @@
 //! Generates the [vmtx](https://learn.microsoft.com/en-us/typography/opentype/spec/vmtx),
 //! and [vhea](https://learn.microsoft.com/en-us/typography/opentype/spec/vhea) tables.
 
-use fontdrasil::orchestration::{Access, AccessBuilder, Work};
+use fontdrasil::{
+    orchestration::{Access, AccessBuilder, Work},
+    types::GlyphName,
+};
 use fontir::orchestration::WorkId as FeWorkId;
 use log::trace;
 use write_fonts::{
@@ -21,6 +24,22 @@ struct VerticalMetricsWork {}
 
 pub fn create_vertical_metrics_work() -> Box<BeWork> {
     Box::new(VerticalMetricsWork {})
+}
+
+/// The top side bearing, `vertical_origin - y_max`.
+///
+/// The difference of two i16 need not fit in an i16, so compute it in i32 and
+/// fail rather than wrap (or, in a debug build, panic).
+fn top_side_bearing(
+    glyph_name: &GlyphName,
+    vertical_origin: i16,
+    y_max: i16,
+) -> Result<i16, Error> {
+    let side_bearing = vertical_origin as i32 - y_max as i32;
+    side_bearing.try_into().map_err(|_| Error::OutOfBounds {
+        what: format!("top side bearing of '{glyph_name}'"),
+        value: format!("{side_bearing}"),
+    })
 }
 
 impl Work<Context, AnyWorkId, Error> for VerticalMetricsWork {
@@ -74,7 +93,7 @@ impl Work<Context, AnyWorkId, Error> for VerticalMetricsWork {
         let builder =
             glyph_order
                 .iter()
-                .fold(MetricsBuilder::default(), |mut builder, (_gid, gn)| {
+                .try_fold(MetricsBuilder::default(), |mut builder, (_gid, gn)| {
                     let glyph = context.ir.get_glyph(gn.clone());
                     let instance = glyph.default_instance();
 
@@ -84,16 +103,19 @@ impl Work<Context, AnyWorkId, Error> for VerticalMetricsWork {
 
                     let glyph = context.glyphs.get(&WorkId::GlyfFragment(gn.clone()).into());
 
-                    let side_bearing = vertical_origin
-                        - glyph.data.bbox().map(|bbox| bbox.y_max).unwrap_or_default();
+                    let side_bearing = top_side_bearing(
+                        gn,
+                        vertical_origin,
+                        glyph.data.bbox().map(|bbox| bbox.y_max).unwrap_or_default(),
+                    )?;
                     let bounds_advance = glyph
                         .data
                         .bbox()
                         .map(|bbox| bbox.y_max as i32 - bbox.y_min as i32);
 
                     builder.update(advance, side_bearing, bounds_advance);
-                    builder
-                });
+                    Ok::<_, Error>(builder)
+                })?;
 
         let metrics = builder.build();
 
@@ -140,5 +162,23 @@ impl Work<Context, AnyWorkId, Error> for VerticalMetricsWork {
         context.vmtx.set(raw_vmtx);
 
         Ok(())
+    }
+}
+
+#[cfg(test)]
+mod tests {
+    use super::*;
+
+    #[test]
+    fn top_side_bearing_that_does_not_fit_is_an_error() {
+        let name = GlyphName::new("a");
+        assert_eq!(700, top_side_bearing(&name, 800, 100).unwrap());
+        assert_eq!(i16::MAX, top_side_bearing(&name, 800, -31967).unwrap());
+        // 800 - -32000 = 32800
+        assert!(matches!(
+            top_side_bearing(&name, 800, -32000),
+            Err(Error::OutOfBounds { .. })
+        ));
+        assert!(top_side_bearing(&name, i16::MIN, 1).is_err());
     }
 }
